@@ -37,4 +37,21 @@ PROPS = {
         'assumptions': ['IntKmer/VarIntKmer code is as transcribed in coq/Packed/KmerModel.v (checked by this run on the '
                         'generated cases only)'],
     },
+    'C11': {
+        'level_text': 'Coq theorems (Properties/C11.v): every finite in-range history of value-producing operations (empty, '
+                      'from_u64/bytes/ascii, extend_left/right, rc, set, packed set, min_rc) on any of the 19 shipped types succeeds, '
+                      'keeps the unused lanes zero and spells what the same history does to the plain string (induction over the '
+                      'history on top of the C10 refinements); hence ==, cmp and the derived Hash input of any two results are those '
+                      'of the strings (compare_lex by induction on base-4 digits, no sweep); sort/dedup/membership corollaries.',
+        'level_note': 'Hash is proved about the bytes fed to the Hasher (the storage word, little endian); collisions of the hasher '
+                      'itself are outside the property. boomphf lookup is exercised by the harness only. Model transcription trusted '
+                      'as for C10. No axioms.',
+        'technique': 'invariant (wf) + refinement by induction over operation histories (Coq), differential correspondence',
+        'rule': 'random histories (1-40 ops) per type from every constructor; for each a second route to the same string (K extends, '
+                'per-position sets in random order, packed runs with garbage payload, rc routes, lower-case ascii) plus near misses; '
+                '==, cmp, recorded Hasher input, sort+dedup, binary_search and BoomHashMap lookups compared with the list spec; '
+                'non-trivial = all cases (every history has >= 1 op)',
+        'assumptions': ['derive(PartialEq, Ord, Hash) act on the storage field only (PhantomData contributes nothing) - checked by '
+                        'the recorded hasher input and cmp results on the generated cases'],
+    },
 }
